@@ -59,7 +59,7 @@ fn main() {
     }));
     // large operands (sizes 33 .. 129): every pair of one numbering of each shape family, strict and lax
     let sizes: Vec<usize> = if ctx.quick() { vec![33, 65] } else { vec![33, 64, 65, 129] };
-    let big: Vec<_> = ohmc::props::structured::shapes_at(&sizes, false).into_iter().map(|x| x.1).step_by(2).collect();
+    let big: Vec<_> = ohmc::props::structured::shapes_at_labelled(&sizes, false).into_iter().map(|x| x.1).step_by(2).collect();
     let nb = big.len() as u64;
     ctx.run_slice(Slice::new(format!("structured-pairs-large[sizes {:?}: {}^2, strict and lax]", sizes, nb), nb * nb, |i, loc| {
         let (f, g) = (&big[(i / nb) as usize], &big[(i % nb) as usize]);
